@@ -15,6 +15,7 @@ import (
 	"github.com/openkruise/rollouts/pkg/verifrt"
 	apps "k8s.io/api/apps/v1"
 	metav1 "k8s.io/apimachinery/pkg/apis/meta/v1"
+	"k8s.io/apimachinery/pkg/types"
 	"k8s.io/apimachinery/pkg/util/intstr"
 	clientset "k8s.io/client-go/kubernetes"
 	appsv1client "k8s.io/client-go/kubernetes/typed/apps/v1"
@@ -204,4 +205,49 @@ func VerifC17_NewReplicaSetIsCreatedWithinPartitionAndSurge() {
 	verifrt.Assert(newSize <= limit || newSize <= lower, "C17.create.withinThePartition")
 	verifrt.Assert(oldSize+newSize <= R+ms.IntVal || newSize <= lower, "C17.create.withinReplicasPlusSurge")
 	verifrt.Assert(written[0].Spec.Template.Labels["ver"] == "v2", "C17.create.carriesTheNewTemplate")
+}
+
+// VerifC17_ScalingEventMeansSpecReplicasChanged: every sync first asks "is this a scaling event?" and hands a yes to
+// scale(), which knows nothing of partition, maxUnavailable or availability.  The answer is yes exactly when an active
+// ReplicaSet is stamped with a desired size other than the Deployment's *spec* replicas — it does not depend on
+// status.replicas, which moves all through an ordinary rollout (surge).
+func VerifC17_ScalingEventMeansSpecReplicasChanged() {
+	maxR := verifrt.Bound("R", 200, 100000)
+	R := int32(verifrt.IntRange("R", 1, maxR))
+	d := &apps.Deployment{ObjectMeta: metav1.ObjectMeta{Namespace: "ns", Name: "w", UID: "uid-w"}}
+	d.Spec.Replicas = &R
+	d.Spec.Template.Labels = map[string]string{"app": "w", "ver": "v2"}
+	d.Status.Replicas = int32(verifrt.IntRange("status.replicas", 0, 2*maxR))
+	ms := intstr.FromInt(verifrt.IntRange("maxSurge.int", 0, 10))
+	mu := intstr.FromInt(1)
+	strategy := rolloutsv1alpha1.DeploymentStrategy{RollingStyle: rolloutsv1alpha1.PartitionRollingStyle,
+		RollingUpdate: &apps.RollingUpdateDeployment{MaxSurge: &ms, MaxUnavailable: &mu}}
+	now := time.Now()
+	stamped := func(tag string) (int32, bool) {
+		if !verifrt.Bool(tag + ".stamped") {
+			return 0, false
+		}
+		return int32(verifrt.IntRange(tag+".desired", 0, maxR)), true
+	}
+	mk := func(name, ver, uid string, minute int, size int32, tag string) (*apps.ReplicaSet, bool) {
+		rs := &apps.ReplicaSet{ObjectMeta: metav1.ObjectMeta{Namespace: "ns", Name: name, UID: types.UID(uid), CreationTimestamp: metav1.NewTime(now.Add(time.Duration(minute) * time.Minute)),
+			Annotations: map[string]string{deploymentutil.RevisionAnnotation: fmt.Sprintf("%d", minute)}}}
+		s := size
+		rs.Spec.Replicas = &s
+		rs.Spec.Template.Labels = map[string]string{"app": "w", "ver": ver, apps.DefaultDeploymentUniqueLabelKey: "hash-" + ver}
+		differs := false
+		if desired, ok := stamped(tag); ok {
+			rs.Annotations[deploymentutil.ReplicasAnnotation] = fmt.Sprintf("%d", desired)
+			rs.Annotations[deploymentutil.MaxReplicasAnnotation] = fmt.Sprintf("%d", int(desired)+int(ms.IntVal))
+			differs = size > 0 && desired != R
+		}
+		return rs, differs
+	}
+	oldRS, d1 := mk("w-old", "v1", "uid-old", 1, int32(verifrt.IntRange("old.replicas", 0, maxR)), "old")
+	newRS, d2 := mk("w-new", "v2", "uid-new", 2, int32(verifrt.IntRange("new.replicas", 0, maxR)), "new")
+	var written []*apps.ReplicaSet
+	dc := &DeploymentController{eventRecorder: record.NewFakeRecorder(10), strategy: strategy, client: c17Clientset{written: &written}}
+	got, err := dc.isScalingEvent(context.TODO(), d, []*apps.ReplicaSet{oldRS, newRS})
+	verifrt.Assert(err == nil, "C17.scalingEvent.noError")
+	verifrt.Assert(got == (d1 || d2), "C17.scalingEvent.iffAnActiveReplicaSetIsStampedWithAnotherSpecSize")
 }
